@@ -219,3 +219,6 @@ func vfWaitFor(cond func() bool) {
 
 // vfIdle blocks until no other goroutine can run (engine); natively a short sleep.
 func vfIdle() { time.Sleep(2 * time.Millisecond) }
+
+// vfConcBool forks on a symbolic boolean and returns it as a concrete one.
+func vfConcBool(b bool) bool { return b }
